@@ -1174,4 +1174,29 @@ pub fn all(out: &mut Vec<GSpec>) {
         options(out);
         cycles(out);
     }
+    // the subject's `grammar-extras` configuration (pest keeps `e+` as one node): a slice of the corpus again
+    let mut ge: Vec<GSpec> = vec![];
+    for s in out.iter() {
+        let pick = match s.family.as_str() {
+            "expr" => s.id == "expr_ws_q0" || s.id == "expr_wc_q0" || (!s.quick && s.id.ends_with("t0")),
+            "kind" => s.id == "kind_ws_b0" || s.id == "kind_both_b3" || (!s.quick && s.id.ends_with("_b2")),
+            "tree" => true,
+            "stack" => s.id == "stack_q0",
+            "options" => s.id.starts_with("options_ws_") || s.id.starts_with("options_cnt_"),
+            "mention" => s.id == "mention_q0",
+            "arity" => s.id == "arity_3" || s.id == "arity_13",
+            _ => false,
+        };
+        if pick {
+            let mut x = s.clone();
+            x.id = format!("{}_ge", s.id);
+            x.family = format!("{}_ge", s.family);
+            x.extras = true;
+            if !x.base_id.is_empty() {
+                x.base_id = format!("{}_ge", x.base_id);
+            }
+            ge.push(x);
+        }
+    }
+    out.extend(ge);
 }
